@@ -1,16 +1,16 @@
 //! vector family: StaticVec<T,N>, PolymorphicVec, RelocatableVec
-use crate::{CAPS, Case, begin, finish, note_reloc};
-use checks_bb::models::vec::*;
-use checks_bb::models::{Known, direct, op_sequences};
-use checks_bb::reloc::Block;
-use checks_bb::tracked::Tracked;
+use crate::families::{CAPS, Case, begin, finish, note_reloc};
+use crate::models::vec::*;
+use crate::models::{Known, direct, op_sequences};
+use crate::reloc::Block;
+use crate::tracked::Tracked;
 use iceoryx2_bb_container::vector::*;
 use iceoryx2_bb_memory::heap_allocator::HeapAllocator;
 use proptest::prelude::*;
 use std::cell::RefCell;
 use vcore::{Ctx, Failure, Obs, ensure};
 
-fn run_case(c: &Case<VOp>, obs: &mut Obs, known: &Known) -> Result<(), Failure> {
+pub fn run_case(c: &Case<VOp>, obs: &mut Obs, known: &Known) -> Result<(), Failure> {
     begin(known);
     let mut nohook = |_: usize| {};
     let r = match c.flavour {
@@ -56,7 +56,7 @@ pub fn parts(ctx: &mut Ctx) {
     let known = Known::none();
     let alphabet = vop_alphabet();
     let len = ctx.scale(5, 6);
-    let grid = crate::combos(3, |f, c| f != 0 && c == 0);
+    let grid = crate::families::combos(3, |f, c| f != 0 && c == 0);
     let cases = grid.iter().copied().flat_map(|(flavour, cap)| {
         op_sequences(&alphabet, len).map(move |ops| Case { flavour, cap, reloc: 0, ops })
     });
